@@ -172,9 +172,9 @@ def subsets(N):
 
 class Prop:
     ID = "C06"
-    LEVEL = "exploration"
-    COQ_HEADER = ""
-    CHECK_FN = ""
+    LEVEL = "proof"
+    COQ_HEADER = "From TN Require Import Harness.H_C06.\nFrom Coq Require Import QArith.\nOpen Scope Z_scope.\n"
+    CHECK_FN = "check_any"
     RULE = ("dot: enumerated format lattice ({TT,CP}x{U,no U} per mode) on both operands for N=1,2, seeded for N=3,4; every "
             "(N1,N2,k) with 0<=k<=min(N1,N2) and k=None, dense operand on either side; norm/normsq/dist/relative_error/rmse/"
             "r_squared on seeded pairs incl. b=-a, b=a in another representation, b=a+-1 entry, zero tensors, dense operand on "
@@ -190,7 +190,8 @@ class Prop:
                    "moments through the default approximate path are compared with tolerance 1e-6 (eps=1e-12) / 1e-4 (eps=1e-6) "
                    "relative to E|t|^k; everything else with 1e-9",
                    "undefined quotients (zero ground truth, constant ground truth, zero variance) are not judged"]
-    THEOREMS = []
+    THEOREMS = ["C06_dot", "C06_dot_partial", "C06_sum", "C06_wsum", "C06_norm", "C06_dist", "C06_dist_sym", "C06_dist_zero_iff",
+                "C06_dist_is_norm_of_difference", "C06_relative_error", "C06_rmse", "C06_var", "C06_r_squared"]
 
     # ------------------------------------------------------------------ generation
     def generate(self, rng, tier):
@@ -636,4 +637,51 @@ class Prop:
             t.get("pair"), t["api"]))
 
     def coq_term(self, case, res):
+        """model (Coq, vm_compute) versus implementation: dot (full / partial, both operands compressed), sum, mean"""
+        if not res.get("ok") or case.get("dense") or case.get("sameobj"):
+            return None
+        op = case["op"]
+        a = case["a"]
+        N = len(a["modes"])
+        if op == "dot" and case.get("b") is not None:
+            b = case["b"]
+            k = case.get("k")
+            if k is None:
+                k = min(N, len(b["modes"]))
+            if k == 0:
+                return None
+            dense = canon_dense(res["dense"])
+            if dense is None:
+                dense = [10 ** 9]
+            return "cZ (mkZ (zDot %s %s %d) %s %s)" % (coq_tensor(a), coq_tensor(b), k, coq_natlist(res["shape"]), coq_list(dense))
+        if op == "sum":
+            dim = case.get("dim")
+            dims = list(range(N)) if dim is None else ([dim] if isinstance(dim, int) else list(dim))
+            dims = [d % N for d in dims]
+            dense = canon_dense(res["dense"])
+            if dense is None:
+                dense = [10 ** 9]
+            return "cZ (mkZ (zSum %s %s) %s %s)" % (coq_tensor(a), coq_natlist(dims), coq_natlist(res["shape"]), coq_list(dense))
+        if op == "mean":
+            from fractions import Fraction
+            dim = case.get("dim")
+            dims = list(range(N)) if dim is None else ([dim] if isinstance(dim, int) else list(dim))
+            dims = [d % N for d in dims]
+            shape = tshape(a)
+            M = case.get("marginals")
+            dw = []
+            for j, d in enumerate(dims):
+                if M is None:
+                    w = [Fraction(1, shape[d])] * shape[d]
+                else:
+                    m = [Fraction(x).limit_denominator(10 ** 6) for x in M[j]]
+                    tot = sum(m)
+                    if tot == 0:
+                        return None
+                    w = [x / tot for x in m]
+                dw.append("(%d%%nat, %s)" % (d, coq_list(w, qlit, "Q")))
+            lit = lambda x: qlit(Fraction(x))
+            qd = lambda x: "(%d#%d)" % (round(x * 2 ** 40), 2 ** 40)
+            return "cQ (mkQ (qWsum %s [%s]) %s %s)" % (coq_tensor(a, lit, "Q"), "; ".join(dw), coq_natlist(res["shape"]),
+                                                      coq_list(res["dense"], qd, "Q"))
         return None
